@@ -24,6 +24,13 @@ package db
 //@ extern errors.* -> (e)
 //@   nodefault
 //@
+//@ // container/list operations write list-internal memory only (assumed)
+//@ extern (*list.List).* -> (r)
+//@   pure
+//@   nodefault
+//@ extern (*list.Element).* -> (r)
+//@   pure
+//@   nodefault
 //@ // ---- transaction events -------------------------------------------------------------------------
 //@ extern db.ensureContextTxn(ctx, db, readOnly) -> (c, txn, e)
 //@   requires !owned
@@ -257,7 +264,45 @@ package db
 //@ func (*mergeProcessor).processBlock -> (err)
 //@   assert before call#1 ProcessBlock: res(initCRDTForType, 1, 0) != nil && res(initCRDTForType, 1, 1) == nil && arg1 == res(initCRDTForType, 1, 0)
 //@   tags C19 C05
-//@ apply ErrFlow: (*mergeProcessor).processBlock, (*mergeProcessor).initCRDTForType, (*mergeProcessor).mergeComposites, (*mergeProcessor).loadComposites
+//@ // ===== C01/C02/C04: the walk from an incoming commit back to the already merged frontier ============
+//@ // The merge target is a frontier of already merged commits with the greatest of their heights.
+//@ func (*mergeTarget).add
+//@   ensures maphas(mt.heads, blockCid) && mapget(mt.heads, blockCid) == block
+//@   ensures mt.headHeight >= old(mt.headHeight) && mt.headHeight >= res(GetPriority, 1, 0)
+//@   ensures mt.headHeight == old(mt.headHeight) || mt.headHeight == res(GetPriority, 1, 0)
+//@   tags C01 C02 C04
+//@ // a commit is queued at most once, and never one that belongs to the frontier; it is queued only when it
+//@ // is at least as high as every frontier commit (so it cannot be an ancestor of one); when it is queued
+//@ // every one of its parents is walked, with the same frontier
+//@ func (*mergeProcessor).loadComposites -> (err)
+//@   assert before call#1 queueComposite: !old(maphas(mt.heads, blockCid)) && !old(maphas(mp.queuedComposites, blockCid))
+//@   assert before call#1 queueComposite: arg1 == blockCid && arg2 == res(GetFromNode, 1, 0)
+//@   assert before call#1 queueComposite: res(GetPriority, 1, 0) >= mt.headHeight
+//@   assert before call#1 GetPriority: arg0 == res(GetFromNode, 1, 0).Delta
+//@   assert before call#1 loadComposites: callarg(queueComposite, 1, 1) == blockCid
+//@   assert before call#1 loadComposites: arg2 == rangeslice1[rangeindex1+1].Cid
+//@   assert before call#1 loadComposites: arg3 == mt && arg0 == mp
+//@   ensures err == nil && !old(maphas(mt.heads, blockCid)) && !old(maphas(mp.queuedComposites, blockCid)) && res(GetPriority, 1, 0) >= mt.headHeight ==> exhausted(1)
+//@   tags C01 C02 C04
+//@ // the frontier is walked back one generation at a time: only its highest commits are replaced by their
+//@ // parents, the lower ones are kept
+//@ func (*mergeProcessor).loadComposites
+//@   assert before call#2 loadComposites: arg2 == blockCid && arg0 == mp && exhausted(2)
+//@   assert before call#1 add: res(GetPriority, 2, 0) < mt.headHeight && arg1 == c && arg2 == b && callarg(GetPriority, 2, 0) == b.Delta
+//@   assert before call#2 add: res(GetPriority, 2, 0) >= mt.headHeight && arg2 == res(GetFromNode, 2, 0) && arg1 == link.Cid && res(GetPriority, 1, 0) < mt.headHeight
+//@   assert before call#2 Load: arg2 == box(rangeslice3[rangeindex3+1])
+//@   tags C01 C02 C04
+//@ // the frontier a merge starts from holds every current head of the document, each with its own block
+//@ func getHeadsAsMergeTarget -> (mt, err)
+//@   assert before call#1 add: arg2 == res(loadBlockFromBlockStore, 1, 0) && callarg(loadBlockFromBlockStore, 1, 1) == arg1
+//@   assert before call#1 loadBlockFromBlockStore: arg1 == rangeslice1[rangeindex1+1]
+//@   assert before call#1 getHeads: arg1 == key
+//@   ensures err == nil ==> exhausted(1)
+//@   tags C01 C02 C04
+//@ func (*mergeProcessor).queueComposite
+//@   ensures maphas(mp.queuedComposites, blockCid)
+//@   tags C02
+//@ apply ErrFlow: (*mergeProcessor).processBlock, (*mergeProcessor).initCRDTForType, (*mergeProcessor).mergeComposites, (*mergeProcessor).loadComposites, getHeadsAsMergeTarget
 //@
 //@ // ===== C13: schema version / collection identifiers are deterministic functions of the (sorted) set of
 //@ // type definitions
